@@ -20,8 +20,28 @@ mod sut;
 mod vfs;
 mod wrap;
 
+/// Every log statement of the subject is enabled and its arguments are formatted (and thrown
+/// away): what a statement does when somebody turns logging on - README recommends
+/// RUST_LOG=info - is part of the behaviour under test. A panic while formatting surfaces in the
+/// request that logged.
+struct EvalLogger;
+impl log::Log for EvalLogger {
+    fn enabled(&self, _: &log::Metadata) -> bool {
+        true
+    }
+    fn log(&self, record: &log::Record) {
+        let _ = std::fmt::format(*record.args());
+    }
+    fn flush(&self) {}
+}
+static EVAL_LOGGER: EvalLogger = EvalLogger;
+
 fn main() {
     let args: Vec<String> = std::env::args().collect();
+    if std::env::var("TCSS_NO_LOGGER").is_err() {
+        let _ = log::set_logger(&EVAL_LOGGER);
+        log::set_max_level(log::LevelFilter::Trace);
+    }
     sut::cleanup_stale_scratch();
     // keep panics of the subject (caught by catch_unwind) from flooding stderr
     if std::env::var("TCSS_VERBOSE_PANICS").is_err() {
